@@ -434,11 +434,31 @@ def _numeric_witnesses(cands, ctx, pc, negs, margin=1e-4):
         if any(ctx.kind[i] == "real" and i not in val for i in range(len(ctx.names))):
             continue
         try:
-            if all(_holds(f, val, 1e-9) for f in pc) and any(_holds_strict(f, val, margin) for f in negs):
+            if all(_pc_holds(f, val) for f in pc) and any(_holds_strict(f, val, margin) for f in negs):
                 good.append(d)
         except Exception:
             continue
     return good
+
+
+def _pc_holds(f, val, eps=1e-9):
+    """numeric truth of a path-condition formula with its exact meaning (a disequality must really hold); formulas that cannot be
+    judged numerically raise, which drops the candidate"""
+    if isinstance(f, bool):
+        return f
+    if isinstance(f, Cons):
+        v = f.p.evaluate(val).real
+        return {"==": abs(v) <= eps, "!=": abs(v) > eps, ">": v > eps, ">=": v >= -eps, "<": v < -eps, "<=": v <= eps}[f.op]
+    tag = f[0]
+    if tag == "and":
+        return all(_pc_holds(x, val, eps) for x in f[1])
+    if tag == "or":
+        return any(_pc_holds(x, val, eps) for x in f[1])
+    if tag == "not":
+        return not _pc_holds(f[1], val, eps)
+    if tag == "cneq":
+        return abs(f[1].evaluate(val) - f[2].evaluate(val)) > eps
+    raise ValueError("formula cannot be judged numerically")
 
 
 def _holds_strict(f, val, margin):
